@@ -31,12 +31,13 @@ import (
 	"github.com/golang/protobuf/ptypes/empty"
 	"github.com/sirupsen/logrus"
 	pb "massnet.org/mass-wallet/api/proto"
+	"github.com/massnetorg/mass-core/consensus"
 	"github.com/massnetorg/mass-core/wire"
 	"verifharness/internal/rng"
 	"verifharness/internal/sim"
 )
 
-var scenarios = []string{"none", "unselected", "selected", "pending", "pending-restart", "importing", "removing1", "removing2", "removed", "starting", "race-remove", "hints", "events"}
+var scenarios = []string{"none", "unselected", "selected", "pending", "pending-restart", "importing", "removing1", "removing2", "removed", "starting", "lagging-reorg", "stopped", "race-remove", "hints", "events"}
 
 // API methods raced against the completion of the background removal of the selected wallet
 var raceTargets = []string{"GetWalletBalance", "GetAddressBalance", "GetUtxo", "SignRawTransaction", "CreateRawTransaction", "GetTransactionFee", "AutoCreateTransaction", "TxHistory", "GetAddresses", "CreateAddress"}
@@ -60,8 +61,24 @@ func buildScenario(scen string, r *rng.R) (*World, error) {
 		return fail(err)
 	}
 	A := wd.ws[0]
+	// the Blockchain object of the simulated node reads the chain database when it is opened (blocks are attached
+	// below it): reopening the manager lets the API's node-side queries (best height, blocks by height, staking
+	// ranks) see the chain the history has built
+	refresh := func() error {
+		if !r.Chance(65) {
+			return nil
+		}
+		if err := wd.restart(); err != nil {
+			return err
+		}
+		_, err := wd.w.WM.UseWallet(A.id)
+		return err
+	}
 	switch scen {
 	case "selected":
+		if err := refresh(); err != nil {
+			return fail(err)
+		}
 	case "unselected":
 		if r.Chance(50) {
 			if err := wd.addPending(); err != nil {
@@ -75,6 +92,13 @@ func buildScenario(scen string, r *rng.R) (*World, error) {
 	case "pending", "events":
 		if err := wd.addPending(); err != nil {
 			return fail(err)
+		}
+		if scen == "pending" {
+			st := wd.state
+			if err := refresh(); err != nil {
+				return fail(err)
+			}
+			wd.state = st
 		}
 	case "pending-restart":
 		if err := wd.addPending(); err != nil {
@@ -129,6 +153,42 @@ func buildScenario(scen string, r *rng.R) (*World, error) {
 		if err := wd.addPending(); err != nil {
 			return fail(err)
 		}
+	case "lagging-reorg":
+		if curInst%4 >= 2 {
+			if err := wd.addPending(); err != nil {
+				return fail(err)
+			}
+		}
+		// instance i: variant i%2; every third instance the replacing branch is one block shorter and the manager is
+		// reopened between the deposit and the reorganisation (the node's Blockchain object then still names the old tip)
+		shorter := curInst%3 == 1
+		mid := refresh
+		if shorter {
+			mid = func() error {
+				if err := wd.restart(); err != nil {
+					return err
+				}
+				_, err := wd.w.WM.UseWallet(A.id)
+				return err
+			}
+		}
+		if err := wd.makeLagging(curInst%2, shorter, mid); err != nil {
+			return fail(err)
+		}
+	case "stopped":
+		// the daemon is shutting down: WalletManager.Stop has closed the database, the gRPC server still hands
+		// requests to the handlers (grpc's Stop does not wait for them)
+		if r.Chance(50) {
+			if err := wd.addPending(); err != nil {
+				return fail(err)
+			}
+		}
+		if err := refresh(); err != nil {
+			return fail(err)
+		}
+		wd.w.Stop()
+		wd.stopped = true
+		wd.state = "stopped"
 	case "hints":
 	case "removed":
 		if err := wd.addPending(); err != nil {
@@ -200,6 +260,7 @@ func (wd *World) liveness() (string, string) {
 }
 
 var curCase = "-"
+var curInst = 0
 var wout *bufio.Writer
 var woutMu sync.Mutex
 
@@ -223,7 +284,9 @@ func worker(scen string, inst, part, nreq, only int, path string) int {
 	logrus.RegisterExitHandler(func() {
 		emit("X\t%s\t%d\t%d\t%s\tfatal-exit\tthe wallet logged at FATAL level (its Recover() caught a panic in a background goroutine) and the process exits", scen, inst, part, curCase)
 	})
+	curInst = inst
 	sim.Init(sim.Params{CoinbaseMaturity: 4, MinFrozenPeriod: 2, GapLimit: 20})
+	consensus.StakingTxRewardStart = 2 // a package variable of mass-core, like the two maturities: staking deposits earn rewards after 2 blocks
 	seed := rng.Seed()
 	r := rng.New(seed*7919 + uint64(inst)*104729 + uint64(part)*1299709 + uint64(len(scen))*31 + uint64(scen[0]))
 	wd, err := buildScenario(scen, r)
@@ -241,12 +304,44 @@ func worker(scen string, inst, part, nreq, only int, path string) int {
 	if scen == "hints" {
 		return runHints(wd, scen, inst, part)
 	}
+	if inst%2 == 1 {
+		// the second fork switch of mass-core (a package variable like the maturities): in every other instance the
+		// requests are served after the MASSIP0002 warm-up height (new bindings and pool-coinbase payloads may be
+		// sent, old bindings are refused, GetNetworkBinding prices Chia plots)
+		consensus.MASSIP0002WarmUpHeight = 1
+	}
 	p := buildPools(wd)
 	ms := apiMethods(wd.api)
-	held := scen == "importing" || scen == "removing1" || scen == "removing2" || strings.HasPrefix(wd.state, "starting:worker-frozen")
+	stopped := scen == "stopped"
+	held := stopped || scen == "importing" || scen == "removing1" || scen == "removing2" || strings.HasPrefix(wd.state, "starting:worker-frozen")
 	gr := rng.New(seed*15485863 + uint64(inst)*32452843 + uint64(part)*49979687 + uint64(len(scen)))
 	for k := 0; k < nreq; k++ {
 		g := genCase(wd, p, ms, gr)
+		if scen == "lagging-reorg" && part == 0 && k == 0 {
+			// the request this state is about comes first (the others of the instance are drawn as everywhere)
+			req := &pb.GetBindingHistoryRequest{Type: "all"}
+			g = gcase{method: "GetBindingHistory", req: req, call: call1(ms, "GetBindingHistory", req)}
+		}
+		if stopped && part == 0 && k < 2 && len(wd.ws) > 0 {
+			// the shape of the defect this state exposed: WalletManager.NewAddress fails on the closed database, drops the
+			// cached keystore to reload it, the reload fails too (CreateAddress gets here when Stop closes the database
+			// after its GetAddresses call); then an address is validated
+			A := wd.ws[0]
+			if k == 0 {
+				g = gcase{method: "WM.NewAddress", desc: "[0]", call: func(wd *World) string {
+					if _, err := wd.w.WM.NewAddress(0); err != nil {
+						return "err:go"
+					}
+					return "ok"
+				}}
+			} else {
+				req := &pb.ValidateAddressRequest{Address: A.addrs[0].std}
+				g = gcase{method: "ValidateAddress", req: req, call: call1(ms, "ValidateAddress", req)}
+			}
+		}
+		if scen == "lagging-reorg" && k == 1 {
+			g = gcase{method: "GetBestBlock", req: &empty.Empty{}, call: call1(ms, "GetBestBlock", &empty.Empty{})}
+		}
 		if only >= 0 && k != only {
 			continue
 		}
@@ -261,15 +356,23 @@ func worker(scen string, inst, part, nreq, only int, path string) int {
 			// model is read before the call and must still hold when the call runs
 			wd.w.WaitTasks(3 * time.Second)
 		}
-		if ml := guarded(timeout, func() string { return modelLine(wd, fmt.Sprintf("%s/%d/%d/%d", scen, inst, part, k), g) }); ml.class != "" && ml.class[0] == 'R' {
-			emit("%s", ml.class)
+		if !stopped || g.method == "ValidateAddress" { // the model has no closed database: after Stop the requests are explored, not predicted (but for ValidateAddress, which reads the keystore cache only)
+			if ml := guarded(timeout, func() string { return modelLine(wd, fmt.Sprintf("%s/%d/%d/%d", scen, inst, part, k), g) }); ml.class != "" && ml.class[0] == 'R' {
+				emit("%s", ml.class)
+			}
 		}
 		res := guarded(timeout, func() string { return g.call(wd) })
 		emit("C\t%s\t%d\t%d\t%d\t%s\t%s\t%s\t%s\t%s", scen, inst, part, k, wd.state, g.method, res.class, clean(reqs), clean(res.info))
+		if res.class == "ok" && (strings.Contains(g.method, "RemoveWallet") || strings.Contains(g.method, "Import")) {
+			wd.lagDirty = true
+		}
 		if strings.HasPrefix(res.class, "panic") || res.class == "stall" {
 			// the database may be left inside a write transaction: this process is finished
 			return 3
 		}
+	}
+	if stopped {
+		return 0
 	}
 	curCase = "liveness"
 	v, d := wd.liveness()
